@@ -168,6 +168,16 @@ func jsonBlock(stdout []byte) ([]jsonItem, string) {
 	return items, ""
 }
 
+// stepDigest hashes everything observable of one invocation (stdout, stderr, exit, resulting disk, I/O trace)
+// for the determinism self-test.
+func stepDigest(r *NodeResult) string {
+	var db []byte
+	if r.Disk != nil {
+		db = r.Disk.Marshal()
+	}
+	return hashStr(string(r.Stdout) + "\x00" + string(r.Stderr) + "\x00" + r.Exit + fmt.Sprint(r.Code) + "\x00" + string(db) + "\x00" + traceString(r.Trace))
+}
+
 func exitDesc(r *NodeResult) string {
 	switch r.Exit {
 	case "panic":
